@@ -11,6 +11,7 @@ import PdshVerif.Dsh.SignalsList
 import PdshVerif.Dsh.SignalsOrder
 import PdshVerif.Dsh.SignalsExit
 import PdshVerif.Dsh.SignalsOutput
+import PdshVerif.Dsh.SignalsMask
 import PdshVerif.Props.C03
 import PdshVerif.Props.C04
 
@@ -82,6 +83,10 @@ What is proved (for every `v`, `f`, `n`, every schedule and arrival time unless 
       leaves READING/DONE/FAILED slots alone; a canceled slot without a thread never gets one (no worker
       operation for it ever happens, in any continuation); the dispatcher never creates a thread for a
       CANCELED slot (check and create under one mutex);
+* `canceled_count_printed_is_the_snapshot`
+      "Canceled n pending threads.": n is fixed when threadcount_mutex is taken and nothing else changes it; the LTS and
+      the product with the output stream accept the message printed inside the critical section (dsh.c as pinned) and
+      after the unlock (harmless change C20-H4); the correspondence compares the number when the handler is done;
 * `canceled_created_slot_runs`  **witness of the defect F20-LOSTCANCEL** (decided on a concrete run, N = 1): a
       slot whose thread exists but has not yet written DSH_RCMD is canceled, counted, and then connected: the
       blind `a->state = DSH_RCMD` overwrites DSH_CANCELED.  With the blind worker (`g = false`) "a canceled host
@@ -114,6 +119,16 @@ What is proved (for every `v`, `f`, `n`, every schedule and arrival time unless 
       can take every one of its steps (or whoever holds the mutex it needs can move): progress never depends on a
       cancellation point other than sigwait.  A batch ^C taken just before the request still ends in exit(1)
       (example at the end);
+* `set_up_run_is_a_run`, `inherited_state_makes_no_difference`, `signals_queued_while_dsh_runs`,
+  `signal_outside_sigwait_only_when_idle`   (the set-up code as steps: `Dsh/SignalsMask.lean`)
+      `_mask_signals (SIG_BLOCK)` / `(SIG_UNBLOCK)` are steps of a wrapper of the LTS whose parameter `Inh` is what pdsh
+      inherits (SIGINT/SIGTSTP ignored or not, blocked or not: `pdsh … &` from a script, nohup-like wrappers, pdsh's own
+      prompt mode), with the kernel's rule for a signal sent to the process (some thread has it unblocked: discarded if
+      ignored, else default action — SIGINT ends pdsh, SIGTSTP stops it; otherwise queued *whatever its disposition* and
+      taken by sigwait).  The dispatcher acts only between the two calls; a run of the wrapper is a run of the LTS (so
+      every theorem here holds of it); every run of the LTS is, for EVERY inherited state, a run of the wrapper in which
+      no signal was discarded or took its default action; a signal is acted on outside sigwait only before dsh() has
+      blocked anything or after it has asked the signals thread to end — when no host is connecting or running;
 * `exit_nonzero_on_abort`  whenever exit() was called its status is 1;
 * `fanout_respected_always`, `once_only_always`
       C04 and C03 of *every* run of the signal-extended LTS, proved directly (no projection): with the `while` wait
@@ -127,7 +142,9 @@ What is proved (for every `v`, `f`, `n`, every schedule and arrival time unless 
 
 Not proved here: that dsh.c refines the LTS (trace correspondence of `checks/c20.py`: every event enabled, equal
 threadcount / t[i].state / enabled sets, the hosts the listing names = `St.listed`; plus the real dsh.c on real threads
-with real signals, `harness/sigthread_harness.c`, which is what decides `_mask_signals` and the sigwait set); fairness of
+with real signals, `harness/sigthread_harness.c`, which is what decides WHICH signals `_mask_signals` blocks and the
+sigwait set contains, under every inherited disposition/mask — the LTS sees only THAT dsh() calls pthread_sigmask, and where);
+POSIX leaves open whether a blocked signal whose disposition is SIG_IGN is queued (Linux queues it: modelled); fairness of
 the real scheduler (`no_deadlock_with_signals` says a step is *possible*); the content of relayed output (which bytes
 a record consists of is C05/C06; here a record is an opaque call, and per-call atomicity of stdio is the modelled
 guarantee, not something proved of libc; glibc's exit() flushing a FILE without taking its lock can, beyond the model,
@@ -500,6 +517,35 @@ theorem tstp_cancels_only_pending {v : Variant} {g sw : Bool} {f n t0 : Nat} {b 
     exact ⟨hp, by simp [cancelT, hp], okTS_pending (hinv.t.ok j) hp⟩
   · rcases hr with hr | hr | hr <;> rw [hr] <;> rfl
 
+/-- C20: the number in "Canceled n pending threads." is the count taken under threadcount_mutex, whenever the message is
+    printed: no step other than the signals thread taking threadcount_mutex for a new cancellation changes `St.ncanc` —
+    so dsh.c as pinned (err() before the unlock) and C20-H4 (err() after the unlock, while the dispatcher and finishing
+    workers already run on) print the same number; in the product with the output stream the signals thread may be
+    inside that stdio call at `cancUnlock` (mutex held) and at `waiting` (mutex released): `emitS` -/
+theorem canceled_count_printed_is_the_snapshot {s s' : St} {l : Label} (hs : step s l = some s')
+    (hl : ¬ (l = .s .lock ∧ s.spc = .cancLock)) : s'.ncanc = s.ncanc := by
+  rcases ncanc_frozen hs with h | h
+  · exact h
+  · exact absurd h hl
+
+/-- non-vacuity, both disciplines of the message in the product model: N = 1, ^C ^Z cancels slot 0 whose worker was
+    created; the record of the message (one stdio call) is written with threadcount_mutex held, or after the unlock
+    while the worker (repaired form) already finds itself canceled — both are runs, same stream, same count -/
+example :
+    (prun (pinit .whileWait true false 1 1 false 10)
+      ([.d .createS, .d .lock, .d (.create 0), .d .unlock,
+        .e (.deliver .int), .s (.sigwait .int), .s (.time 10), .s (.time 10), .s .lockT, .s .unlockT,
+        .e (.deliver .tstp), .s (.sigwait .tstp), .s (.time 10), .s .lock].map .proto ++
+       [.begin ⟨.s, [5]⟩, .copy, .finish, .proto (.s .unlock), .proto (.w 0 .lockT)])).map
+      (fun p => (content p.out, p.p.ncanc, p.p.own)) = some ([5], 1, .none) ∧
+    (prun (pinit .whileWait true false 1 1 false 10)
+      ([.d .createS, .d .lock, .d (.create 0), .d .unlock,
+        .e (.deliver .int), .s (.sigwait .int), .s (.time 10), .s (.time 10), .s .lockT, .s .unlockT,
+        .e (.deliver .tstp), .s (.sigwait .tstp), .s (.time 10), .s .lock].map .proto ++
+       [.proto (.s .unlock), .begin ⟨.s, [5]⟩, .proto (.w 0 .lockT), .copy, .finish])).map
+      (fun p => (content p.out, p.p.ncanc, p.p.own)) = some ([5], 1, .none) := by
+  constructor <;> decide
+
 /-- C20: a canceled slot for which no thread exists never gets one: in every continuation, under every
     schedule, no operation of worker `j` — in particular no connect — ever happens, and the slot stays CANCELED -/
 theorem canceled_new_never_started {v : Variant} {g sw : Bool} {f n t0 : Nat} {b : Bool} {s s' : St} {ls : List Label} {j : Nat}
@@ -787,6 +833,67 @@ theorem no_nested_locks {v : Variant} {g sw : Bool} {f n t0 : Nat} {b : Bool} {s
 /-- after exit() nothing happens any more -/
 theorem exit_is_end {s : St} (hx : s.exited.isSome = true) (l : Label) : step s l = none := by
   simp [step, hx]
+
+/-! ## the set-up code as steps: `_mask_signals`, and what pdsh inherits -/
+
+/-- C20: with `_mask_signals (SIG_BLOCK)` / `(SIG_UNBLOCK)` as steps and the inherited dispositions and mask as a
+    parameter, a run is still a run of the LTS (set-up steps and signals acted on outside sigwait forgotten): every
+    theorem of this file holds of it -/
+theorem set_up_run_is_a_run {inh : Inh} {v : Variant} {g sw : Bool} {f n t0 : Nat} {b : Bool} {ls : List MLabel} {m : MSt}
+    (h : MExec (minit inh v g sw f n b t0) ls m) : Reach v g sw f n b t0 m.p :=
+  mexec_projects h
+
+/-- C20: **what pdsh inherits makes no difference while dsh() runs**: every run of the LTS in which dsh() has not
+    returned is — for every inherited state: SIGINT/SIGTSTP ignored or not, blocked or not — a run of the wrapper from
+    `_mask_signals (SIG_BLOCK)` on, in which no signal was discarded, none ended or stopped the process: each was queued
+    for the signals thread (the class of seeded change C20-12, where the sigwait set depended on the disposition) -/
+theorem inherited_state_makes_no_difference (inh : Inh) {v : Variant} {g sw : Bool} {f n t0 : Nat} {b : Bool}
+    {ls : List Label} {s : St} (h : Exec (init v g sw f n b t0) ls s) (hr : ∀ l ∈ ls, l ≠ .d .ret) :
+    MExec (minit inh v g sw f n b t0) (.mask :: ls.map .proto)
+      { p := s, inh := inh, ph := .masked, killed := false, stops := 0, dropped := 0 } :=
+  every_run_is_masked inh h hr
+
+/-- C20: between the two `_mask_signals` calls a signal sent to pdsh is pending for the signals thread afterwards —
+    ignored or not, blocked at start or not — and nothing else has happened -/
+theorem signals_queued_while_dsh_runs {m m' : MSt} {g : Sg} (hp : m.ph = .masked)
+    (hs : mstep m (.proto (.e (.deliver g))) = some m') :
+    g ∈ m'.p.pend ∧ m'.killed = m.killed ∧ m'.stops = m.stops ∧ m'.dropped = m.dropped ∧ m'.ph = .masked :=
+  queued_while_masked hp hs
+
+/-- C20: a signal is discarded, or ends or stops pdsh by its default action, only in a step that starts before dsh() has
+    blocked anything (nothing was started) or that ends after dsh() has asked the signals thread to end — and then every
+    worker is done and no host is connecting or running: no command is left unsignalled, no listing is owed -/
+theorem signal_outside_sigwait_only_when_idle {inh : Inh} {v : Variant} {g sw : Bool} {f n t0 : Nat} {b : Bool}
+    {ls : List MLabel} {m m' : MSt} {l : MLabel} (h : MExec (minit inh v g sw f n b t0) ls m) (hs : mstep m l = some m')
+    (hc : m'.killed ≠ m.killed ∨ m'.stops ≠ m.stops ∨ m'.dropped ≠ m.dropped) :
+    m.ph = .fresh ∨
+    ∀ j, j < n → (pc m'.p j = .done ∨ pc m'.p j = .idle) ∧ tsAt m'.p j ≠ .rcmd ∧ tsAt m'.p j ≠ .reading := by
+  rcases acted_on_only_outside hs hc with h1 | h1
+  · exact Or.inl h1
+  · right
+    have h' : MExec (minit inh v g sw f n b t0) (ls ++ [l]) m' := .snoc h hs
+    exact (cancel_requested_after_drain (mexec_projects h') (unmasked_after_cancel h' rfl h1)).2
+
+/-- non-vacuity: -b, N = 1, pdsh started with SIGINT *ignored and blocked*; ^C while host 0 runs is queued, taken by
+    sigwait, forwarded, exit(1) — as with default dispositions; the same signal before dsh() has blocked anything, default
+    disposition and nothing blocked: pdsh dies of it; ignored: discarded -/
+example :
+    let ign : Inh := { ign := fun _ => true, blk := fun _ => true }
+    let dfl : Inh := { ign := fun _ => false, blk := fun _ => false }
+    let ig : Inh := { ign := fun _ => true, blk := fun _ => false }
+    (mrun (minit ign .whileWait true true 1 1 true 10)
+      (.mask :: ([.d .createG, .d .createS, .d .lock, .d (.create 0), .d .unlock, .w 0 .lockT, .w 0 .unlockT, .w 0 .connectBegin,
+        .w 0 (.connectEnd true), .w 0 .lockT, .w 0 .time, .w 0 .unlockT,
+        .e (.deliver .int), .s (.sigwait .int), .s .lockT, .s (.fwd 0), .s .unlockT, .s (.exit 1)].map .proto))).map
+      (fun m => (m.p.exited, m.p.fwds, m.killed, m.dropped)) = some (some 1, [0], false, 0) ∧
+    (mrun (minit dfl .whileWait true true 1 1 true 10) [.proto (.e (.deliver .int))]).map
+      (fun m => (m.killed, m.p.pend)) = some (true, []) ∧
+    (mrun (minit dfl .whileWait true true 1 1 true 10) [.proto (.e (.deliver .int)), .mask]) = none ∧
+    (mrun (minit ig .whileWait true true 1 1 true 10) [.proto (.e (.deliver .int)), .mask]).map
+      (fun m => (m.killed, m.dropped, m.p.pend)) = some (false, 1, []) ∧
+    -- the dispatcher does nothing before `mask`
+    (mrun (minit dfl .whileWait true true 1 1 true 10) [.proto (.d .createG)]) = none := by
+  decide
 
 /-! ## projection onto the Fan LTS (C03/C04) -/
 
